@@ -176,6 +176,18 @@ func init() {
 					return VP{"range." + f.Name(), func(v ssa.Value) bool { return prog.LoadedField(v) == f || isFieldVal(v, f) }}
 				}
 				for i, m := range marks {
+					// the marked keys stay inside the cached range: the loop variable starts at
+					// a value >= range.From and the loop runs only while it is <= a value <= range.To
+					mu := m.(*ssa.MapUpdate)
+					lo, hi, isLoop := loopBoundsOf(mu.Key)
+					if !isLoop {
+						x.fail(fmt.Sprintf("%s mark#%d inside-cached-range", cfk, i+1), x.pos(m), "the marked key is not a loop variable running over the cached range")
+					} else {
+						x.check(boundedBy(cf, lo, fieldOrVal(rFrom), "max", GE), fmt.Sprintf("%s mark#%d starts-at-or-after-range.From", cfk, i+1), x.pos(m),
+							"the first marked seq is max(range.From, …) or range.From", "sequences before the cached range's From are marked as present: they are never fetched and the result is silently truncated")
+						x.check(boundedBy(cf, hi, fieldOrVal(rTo), "min", LE), fmt.Sprintf("%s mark#%d ends-at-or-before-range.To", cfk, i+1), x.pos(m),
+							"the last marked seq is min(range.To, …) or range.To", "sequences after the cached range's To are marked as present: they are never fetched and the result is silently truncated")
+					}
 					x.rejectOn(fmt.Sprintf("%s mark#%d not-when-range-ends-before-from", cfk, i+1), m, Cmp{L: fieldOrVal(rTo), R: pf, Want: LT})
 					x.rejectOn(fmt.Sprintf("%s mark#%d not-when-range-starts-after-to", cfk, i+1), m, Cmp{L: fieldOrVal(rFrom), R: pt, Want: GT})
 				}
@@ -312,4 +324,72 @@ func containsFn(l []*ssa.Function, f *ssa.Function) bool {
 		}
 	}
 	return false
+}
+
+// loopBoundsOf: key is the variable of a counting loop "for k := lo; k <= hi; k++"
+// (a phi in a block whose If tests k <= hi or k < hi); returns lo and hi.
+func loopBoundsOf(key ssa.Value) (lo, hi ssa.Value, ok bool) {
+	ph, isPhi := prog.Strip(key).(*ssa.Phi)
+	if !isPhi || len(ph.Edges) != 2 {
+		return nil, nil, false
+	}
+	// the increment edge: k + 1
+	for i, e := range ph.Edges {
+		if b, isB := e.(*ssa.BinOp); isB && b.Op == token.ADD && b.X == ssa.Value(ph) {
+			lo = ph.Edges[1-i]
+		}
+	}
+	if lo == nil {
+		return nil, nil, false
+	}
+	ifi := prog.IfOf(ph.Block())
+	if ifi == nil {
+		return nil, nil, false
+	}
+	c, isC := ifi.Cond.(*ssa.BinOp)
+	if !isC || c.X != ssa.Value(ph) || (c.Op != token.LEQ && c.Op != token.LSS) {
+		return nil, nil, false
+	}
+	return lo, c.Y, true
+}
+
+// boundedBy: v is ref itself, the builtin min/max (as named) with ref among its
+// operands, or a phi each of whose incoming values is one of those or arrives over
+// an edge guarded by v ⋈ ref.
+func boundedBy(fn *ssa.Function, v ssa.Value, ref VP, builtin string, want Rel) bool {
+	var one func(w ssa.Value) bool
+	one = func(w ssa.Value) bool {
+		w = prog.Strip(w)
+		if ref.match(w) {
+			return true
+		}
+		if c, isC := w.(*ssa.Call); isC {
+			if bi, isB := c.Call.Value.(*ssa.Builtin); isB && bi.Name() == builtin {
+				for _, a := range c.Call.Args {
+					if one(a) {
+						return true
+					}
+				}
+			}
+		}
+		return false
+	}
+	if one(v) {
+		return true
+	}
+	if _, isPhi := prog.Strip(v).(*ssa.Phi); !isPhi {
+		return false
+	}
+	all, n := true, 0
+	phiEdges(prog.Strip(v), func(val ssa.Value, e prog.Edge) {
+		n++
+		if one(val) {
+			return
+		}
+		same := VP{"the value", func(w ssa.Value) bool { return prog.Strip(w) == prog.Strip(val) || sameAccessPath(w, val) }}
+		if !edgeGuarded(fn, e, []Cmp{{L: same, R: ref, Want: want}}) {
+			all = false
+		}
+	}, map[*ssa.Phi]bool{})
+	return all && n > 0
 }
